@@ -367,6 +367,10 @@ def next_job_batch():
         jobs = {job.tag: job for job in que}
         for job in filter(lambda j: j.get('todo'), que):
             available = job.get('todo').copy()
+            # a target still executing for this job is released again only
+            # after that execution has reported back
+            for target in job.get('doing'):
+                available.discard(target)
             for dep in jobs.keys() & job.get('ancestry'):
                 for target in job.get('todo'):
                     dependency = find(dep)
